@@ -16,7 +16,7 @@ def write_if_changed(path, text):
 
 # which properties rest on which generated fragment
 FRAGMENT_USERS = {"Dispatch": ["C06", "C16"], "Stubs": ["C16", "C03"], "Fields": ["C06", "C08"], "PoolOps": ["C09", "C10", "C11"], "RPCompare": ["C14"],
-                  "Bodies": ["C01", "C02", "C03", "C04", "C06", "C07", "C08", "C12", "C13", "C15", "C17", "C18", "C19", "C20"]}
+                  "Bodies": ["C01", "C02", "C03", "C04", "C05", "C06", "C07", "C08", "C12", "C13", "C15", "C17", "C18", "C19", "C20"]}
 
 
 def regenerate(repo, outdir, prop=None):
